@@ -55,6 +55,7 @@ type backendPlan struct {
 	header  http.Header
 	body    string
 	latency time.Duration
+	chunks  []string // kind "lockstep"
 }
 
 type backendCall struct {
@@ -82,6 +83,7 @@ type world struct {
 	backend     map[string]*backendPlan
 	uploadFault map[string]string // id -> "503x3" | "err"
 
+	flushed     int // lock-step backend: chunks handed to the agent so far
 	listEnds    []time.Duration
 	listTimes   []time.Duration
 	listStarted int
@@ -287,12 +289,61 @@ func (w *world) upload(r *http.Request, id string) (*http.Response, error) {
 		r.Body.Read(buf)
 		return nil, errors.New("scripted: broken pipe")
 	}
-	b, _ := io.ReadAll(r.Body)
+	// the proxy reads the upload as it arrives: what it has seen so far is visible to the scripted backend
+	buf := make([]byte, 32<<10)
+	for {
+		n, err := r.Body.Read(buf)
+		if n > 0 {
+			w.touch()
+			u.raw = append(u.raw, buf[:n]...)
+		}
+		if err != nil {
+			break
+		}
+	}
 	w.touch()
-	u.raw = b
 	u.done = true
 	return resp(200, nil, nil, r), nil
 }
+
+// lockBody is a backend response body in lock-step with the proxy: chunk i is only produced once the
+// proxy has seen chunk i-1 in the upload for the same request.
+type lockBody struct {
+	w      *world
+	tok    string
+	chunks []string
+	i      int
+	rest   string
+}
+
+func (b *lockBody) seen(marker string) bool {
+	for _, u := range b.w.uploads {
+		if u.id == b.tok && strings.Contains(string(u.raw), marker) {
+			return true
+		}
+	}
+	return false
+}
+
+func (b *lockBody) Read(p []byte) (int, error) {
+	if b.rest == "" {
+		if b.i >= len(b.chunks) {
+			return 0, io.EOF
+		}
+		if b.i > 0 {
+			prev := b.chunks[b.i-1]
+			b.w.flushed = b.i
+			vs.Wait(fmt.Sprintf("backend: waits until the proxy has seen chunk %d of the response to %s", b.i, b.tok), unsafe.Pointer(b.w), func() bool { return b.seen(prev[len(prev)-11:]) })
+		}
+		b.rest = b.chunks[b.i]
+		b.i++
+		b.w.touch()
+	}
+	n := copy(p, b.rest)
+	b.rest = b.rest[n:]
+	return n, nil
+}
+func (b *lockBody) Close() error { return nil }
 
 // ---- the backend as the reverse proxy's transport ----
 
@@ -345,6 +396,11 @@ func (b backendRT) RoundTrip(r *http.Request) (*http.Response, error) {
 		payload = "response-for-" + tok
 	}
 	switch bp.kind {
+	case "lockstep":
+		rp := resp(status, hdr, nil, r)
+		rp.ContentLength = -1
+		rp.Body = &lockBody{w: w, tok: tok, chunks: bp.chunks}
+		return rp, nil
 	case "connerr":
 		return nil, errors.New("dial tcp: connection refused")
 	case "errafterheaders":
